@@ -71,7 +71,9 @@ def run_property(pid, obligations, tier, seed, level='other', explanation='', as
     os.makedirs(os.path.join(VERIF, 'replays'), exist_ok=True)
     for r in results:
         if r.status == 'inconclusive':
-            lines.append('INCONCLUSIVE property=%s obligation=%s reason=%s' % (pid, r.ob_id, r.inconclusive)); exit_code = max(exit_code, 2); continue
+            lines.append('INCONCLUSIVE property=%s obligation=%s reason=%s' % (pid, r.ob_id, r.inconclusive)); exit_code = max(exit_code, 2)
+            if os.environ.get('VERIF_DEBUG'): lines.extend(r.notes[-1:])
+            continue
         for f in r.findings:
             k = open_keys.get((r.ob_id, f.key))
             if k is not None:
